@@ -102,7 +102,7 @@ static void run_pure(void)
             if (encode_guarded(&c, desc, src, len, (li & 1) ? G_START : G_END, &s, what) == 0) {
                 s.data = src;
                 /* ---- consuming calls on guarded, read-only inputs ---- */
-                int nsets = MO.thorough ? 12 : 5;
+                int nsets = MO.thorough ? 40 : 5;
                 for (int e = 0; e < nsets; e++) {
                     int perm[32]; for (int i = 0; i < n; i++) perm[i] = i;
                     rng_shuffle(&rc, perm, n);
@@ -153,7 +153,7 @@ static void run_pure(void)
                     mon_distinct("nontrivial", mon_hash_u64(erased * 4u + (uint32_t)place, mon_hash_u64(len, mon_hash_str(ck, 82))));
                 }
                 /* ---- history independence ---- */
-                int nh = MO.thorough ? 4 : 2;
+                int nh = MO.thorough ? 6 : 2;
                 for (int hI = 0; hI < nh; hI++) {
                     int other = -1; cfg_t oc = { EC_BACKEND_LIBERASURECODE_RS_VAND, 3 + hI, 2, 2, 0, CHKSUM_CRC32 };
                     if (hI & 1) other = lec_create(&oc);        /* another instance alive during the re-encode */
